@@ -75,7 +75,7 @@ func (x *Exec) VerifyFamily(fn *ssa.Function) (rep *FuncReport) {
 		r     exitRec
 		param *ssa.Parameter
 	}
-	var aliases []aliasRet
+	var aliases, nilRets []aliasRet
 	// ... or the result of another compile function that has a family contract of its own
 	// (x * 8 -> mulPow2(...)): delegated returns
 	type delegRet struct {
@@ -90,9 +90,36 @@ func (x *Exec) VerifyFamily(fn *ssa.Function) (rep *FuncReport) {
 		if f.fn != fn || len(r.results) != 1 {
 			return
 		}
+		// a statement compile function returning nil compiles the statement to nothing
+		if rs, isS := r.results[0].(*Struct); isS && len(rs.Fields) == 2 {
+			if t0, isT := rs.Fields[0].(*smt.Term); isT {
+				if x.simplifyUnder(r.st.PC, x.B.Eq(t0, x.B.IntC(0))).IsTrue() || (t0.IsConst() && t0.Val == 0) {
+					nilRets = append(nilRets, aliasRet{f, r, nil})
+					return
+				}
+				for _, rec := range f.callHist {
+					if len(rec.results) == 1 && rec.fn != nil {
+						if cs, isCS := rec.results[0].(*Struct); isCS && len(cs.Fields) == 2 && cs.Fields[0] == rs.Fields[0] && cs.Fields[1] == rs.Fields[1] {
+							if csp := x.specFor(rec.fn); csp != nil && len(csp.Of("closure")) > 0 {
+								delegs = append(delegs, delegRet{f, r, rec.fn, rec.args, rec.pre})
+								return
+							}
+						}
+					}
+				}
+			}
+			return
+		}
 		rt, ok := r.results[0].(*smt.Term)
 		if !ok {
 			return
+		}
+		if _, isFunc := fn.Signature.Results().At(0).Type().Underlying().(*types.Signature); isFunc {
+			// (a statement is a function value: nil is the zero reference)
+			if rt.IsConst() && rt.Val == 0 {
+				nilRets = append(nilRets, aliasRet{f, r, nil})
+				return
+			}
 		}
 		for _, rec := range f.callHist {
 			if len(rec.results) == 1 && rec.results[0] == Value(rt) && rec.fn != nil {
@@ -292,7 +319,29 @@ func (x *Exec) VerifyFamily(fn *ssa.Function) (rep *FuncReport) {
 			x.checkDelegated(sp, d.frame, dr, d.callee, d.args, i+1)
 		}()
 	}
-	rep.Aliases = len(aliases) + len(delegs)
+	for i, a := range nilRets {
+		func() {
+			defer func() {
+				if r := recover(); r != nil {
+					var msg string
+					switch e := r.(type) {
+					case Unsupported:
+						msg = e.Error()
+					case SpecError:
+						msg = e.Error()
+					default:
+						panic(r)
+					}
+					x.prefix = QualName(fn)
+					x.sig = fmt.Sprintf("nil%d", i+1)
+					x.NoObl = 0
+					x.oblige("closure-not-analysable", msg, a.r.where, x.newState(), x.B.False())
+				}
+			}()
+			x.checkStmtReturn(sp, a.frame, a.r, nil, nil, fmt.Sprintf("nil%d", i+1))
+		}()
+	}
+	rep.Aliases = len(aliases) + len(delegs) + len(nilRets)
 	// every FuncLit of the function must have been reached (no closure silently unmatched)
 	nlit := len(fn.AnonFuncs)
 	distinct := map[*ssa.Function]bool{}
@@ -1543,6 +1592,10 @@ func (x *Exec) checkDelegated(sp *spec.FuncSpec, par *Frame, r exitRec, callee *
 	exprC, e := clauseOf(sp)
 	csp := x.specFor(callee)
 	calleeC, ce := clauseOf(csp)
+	if exprC == nil && calleeC == nil && stmtClause(sp) != nil && stmtClause(csp) != nil {
+		x.checkStmtReturn(sp, par, r, callee, args, fmt.Sprintf("deleg%d:%s", n, callee.Name()))
+		return
+	}
 	if exprC == nil || calleeC == nil {
 		specErr("delegated return to %s: both contracts need a 'closure expr' clause", FuncName(callee))
 	}
@@ -1694,4 +1747,157 @@ func propagatePin(pc, t *smt.Term) (*smt.Term, bool) {
 	_, pins := propagate(pc)
 	c, ok := pins[t.ID]
 	return c, ok
+}
+
+func stmtClause(sp *spec.FuncSpec) *spec.Clause {
+	for _, c := range sp.Of("closure") {
+		if w := strings.Fields(c.Text); len(w) > 0 && w[0] == "stmt" {
+			return c
+		}
+	}
+	return nil
+}
+
+// checkStmtReturn: a statement compile function under a "closure stmt" contract returned nil (the
+// statement is compiled to nothing: callee == nil) or what another statement compile function
+// returned. Then, for every kind and storage class of the variable and every run-time state, the
+// contract's assignment must have the effect of doing nothing, resp. of the callee's assignment.
+func (x *Exec) checkStmtReturn(sp *spec.FuncSpec, par *Frame, r exitRec, callee *ssa.Function, args []Value, sigBase string) {
+	B := x.B
+	stmtC := stmtClause(sp)
+	if stmtC == nil {
+		specErr("statement return: the contract has no 'closure stmt' clause")
+	}
+	var calleeC *spec.Clause
+	var cpar *Frame
+	if callee != nil {
+		calleeC = stmtClause(x.specFor(callee))
+		cpar = x.newFrame(callee, nil)
+		for i, p := range callee.Params {
+			if i < len(args) {
+				cpar.regs[p] = args[i]
+			}
+		}
+	}
+	// a closure of the function gives the shape of the statement (its env parameter)
+	var tmpl *ssa.Function
+	for _, a := range par.fn.AnonFuncs {
+		if len(a.Params) == 1 && a.Signature.Results().Len() == 2 {
+			tmpl = a
+			break
+		}
+	}
+	if tmpl == nil {
+		specErr("statement return: %s creates no statement closure to take the shape from", FuncName(par.fn))
+	}
+	// the variable: the first parameter that is a *Var
+	var vp *ssa.Parameter
+	for _, p := range par.fn.Params {
+		if pt, ok := p.Type().Underlying().(*types.Pointer); ok {
+			if su, ok := pt.Elem().Underlying().(*types.Struct); ok && findField(su, "Desc") != nil && findField(su, "Type") != nil {
+				vp = p
+				break
+			}
+		}
+	}
+	if vp == nil {
+		specErr("statement return: no variable parameter")
+	}
+	par.cur, par.curIdx = nil, 0
+	pv := TV{par.regs[vp], vp.Type()}
+	kt := x.kindOfXType(par, par.selectField(pv, "Type", r.st), r.st)
+	classT := par.callMethod(par.selectField(pv, "Desc", r.st), "Class", r.st).V.(*smt.Term)
+	var intBind, varBind uint64 = 0, 0
+	if p := par.pkg(); p != nil {
+		if c, ok := p.Members["IntBind"].(*ssa.NamedConst); ok {
+			intBind = x.constValue(c.Value).(*smt.Term).Val
+		}
+		if c, ok := p.Members["VarBind"].(*ssa.NamedConst); ok {
+			varBind = x.constValue(c.Value).(*smt.Term).Val
+		}
+	}
+	for k := uint64(kBool); k <= kString; k++ {
+		if KindType(k) == nil {
+			continue
+		}
+		for _, cls := range []uint64{intBind, varBind} {
+			if cls == intBind && k == kString {
+				continue // strings are never stored unboxed
+			}
+			create := r.st.clone()
+			create.PC = B.And(r.st.PC, B.Eq(kt, B.BVC(k, kt.S.W)), B.Eq(classT, B.BVC(cls, classT.S.W)))
+			facts, pins := propagate(create.PC)
+			if facts[-1] || create.PC.IsFalse() {
+				continue
+			}
+			x.prefix = QualName(par.fn)
+			clsName := "boxed"
+			if cls == intBind {
+				clsName = "slot"
+			}
+			x.sig = fmt.Sprintf("%s,k=%s,%s", sigBase, kindNames[k], clsName)
+			x.famN++
+			run := x.newState()
+			run.lazy = &lazyHeap{base: B.Var(fmt.Sprintf("rtok%d", x.famN), RefS)}
+			run.PC = x.dropQuantified(create.PC)
+			env := B.Var(fmt.Sprintf("env%d", x.famN), RefS)
+			run.PC = B.And(run.PC, B.Neq(env, B.IntC(0)))
+			nAssume := len(x.assumes)
+			func() {
+				defer func() {
+					x.fam = nil
+					x.assumes = x.assumes[:nAssume]
+					if rr := recover(); rr != nil {
+						var msg string
+						switch e := rr.(type) {
+						case Unsupported:
+							msg = e.Error()
+						case SpecError:
+							msg = e.Error()
+						default:
+							panic(rr)
+						}
+						x.NoObl = 0
+						if strings.Contains(msg, "not defined on") || strings.Contains(msg, "on complex") || strings.Contains(msg, "on composite") || strings.Contains(msg, "unsafe view as") {
+							x.note("alias returns: kinds for which Go does not define the operator are skipped (the property is about programs Go accepts)")
+							return
+						}
+						x.oblige("closure-not-analysable", msg, r.where, x.newState(), x.B.False())
+					}
+				}()
+				evalIn := func(owner *Frame, c *spec.Clause, st *State) *specAlt {
+					fe := &famEnv{x: x, parent: owner, create: create, facts: facts, pins: pins, memo: map[string]TV{}, env: env}
+					x.fam = fe
+					sf := x.newFrame(tmpl, nil)
+					sf.regs[tmpl.Params[0]] = env
+					sf.outer = owner
+					sf.entry = run
+					return x.evalStmtSpec(sf, fe, c, st, create)
+				}
+				x.NoObl++
+				wantSt := run.clone()
+				want := evalIn(par, stmtC, wantSt)
+				var got *specAlt
+				gotSt := run.clone()
+				if callee != nil {
+					got = evalIn(cpar, calleeC, gotSt)
+				} else {
+					// nothing happens; for the comparison the trampoline step is applied here too
+					fe := &famEnv{x: x, parent: par, create: create, facts: facts, pins: pins, memo: map[string]TV{}, env: env}
+					x.fam = fe
+					sf := x.newFrame(tmpl, nil)
+					sf.regs[tmpl.Params[0]] = env
+					got = &specAlt{states: []*State{gotSt}, res: [][]Value{x.trampoline(sf, fe, gotSt)}}
+				}
+				x.NoObl--
+				goal := x.sameOutcome(exitRec{st: got.states[0], results: got.res[0]}, want.res[0], want.states[0])
+				goal = x.simplifyUnder(run.PC, goal)
+				what := "compiling the statement to nothing"
+				if callee != nil {
+					what = "returning the result of " + FuncName(callee) + " (" + calleeC.Text + ")"
+				}
+				x.oblige("stmt-return", what+" satisfies: "+stmtC.Text, r.where, run, goal)
+			}()
+		}
+	}
 }
